@@ -546,60 +546,14 @@ func ruleC12_7(c *Ctx) {
 		c.Undecided("C12.7", "splitter-escape", desc, "no quote-aware list splitter found in the shared tokenizer")
 		return
 	}
-	// the escape flag: a bool phi that becomes true in a block dominated by the true edge of a comparison with a backslash
-	var escPhis []*ssa.Phi
-	instrsOf(split, func(in ssa.Instruction) {
-		phi, ok := in.(*ssa.Phi)
-		if !ok || !isBoolType(phi.Type()) {
-			return
-		}
-		for i, e := range phi.Edges {
-			if b, isC := constBool(e); isC && b {
-				pred := phi.Block().Preds[i]
-				for _, dc := range append(dominatingConds(pred), domCond{}) {
-					if dc.cond == nil {
-						continue
-					}
-					if bo, ok := dc.cond.(*ssa.BinOp); ok && dc.onTrue && bo.Op == token.EQL {
-						if k, ok := constInt(bo.Y); ok && k == '\\' {
-							escPhis = append(escPhis, phi)
-						}
-					}
-				}
-			}
-		}
-	})
-	if len(escPhis) == 0 {
+	// the escape flag: a boolean (a loop-carried local, or a member of a local state struct) that becomes true under the
+	// true edge of a comparison with a backslash
+	st := splitterState(split)
+	if len(st.escSites) == 0 {
 		c.Fail("C12.7", "splitter-escape", desc, c.P.ShortName(split)+": no escape state: a backslash inside a quoted-string is not treated as an escape")
 		return
 	}
-	// loop-carried: the header phi fed by the escape phi
-	isEsc := func(v ssa.Value) bool {
-		seen := map[ssa.Value]bool{}
-		var rec func(v ssa.Value) bool
-		rec = func(v ssa.Value) bool {
-			if seen[v] {
-				return false
-			}
-			seen[v] = true
-			phi, ok := v.(*ssa.Phi)
-			if !ok {
-				return false
-			}
-			for _, ep := range escPhis {
-				if phi == ep {
-					return true
-				}
-			}
-			for _, e := range phi.Edges {
-				if rec(e) {
-					return true
-				}
-			}
-			return false
-		}
-		return rec(v)
-	}
+	isEsc := st.isEscRead
 	n := 0
 	bad := ""
 	instrsOf(split, func(in ssa.Instruction) {
@@ -824,4 +778,132 @@ func ruleC12_12(c *Ctx) {
 	if n == 0 {
 		c.Undecided("C12.12", "list-needs-member", desc, "no raw decoder returning a sequence")
 	}
+}
+
+// splitterVars describes the boolean state of the list splitter: where the escape flag is set, and how reads of the
+// escape flag and of other state flags look (loop-carried phis, or members of a local struct kept in memory).
+type splitterVars struct {
+	escPhis   map[*ssa.Phi]bool
+	escFields map[[2]interface{}]bool // (alloc, field index)
+	escSites  []escSite
+}
+
+type escSite struct {
+	block *ssa.BasicBlock // the block from which the flag becomes true
+	conds []domCond
+	pos   token.Pos
+	phi   *ssa.Phi
+	field [2]interface{}
+}
+
+func splitterState(split *ssa.Function) *splitterVars {
+	st := &splitterVars{escPhis: map[*ssa.Phi]bool{}, escFields: map[[2]interface{}]bool{}}
+	isBackslashTrue := func(conds []domCond) bool {
+		for _, dc := range conds {
+			if dc.cond == nil {
+				continue
+			}
+			for _, lf := range condLeaves(dc.cond, dc.onTrue) {
+				if bo, ok := lf.v.(*ssa.BinOp); ok && lf.val && bo.Op == token.EQL {
+					if k, ok := constInt(bo.Y); ok && k == '\\' {
+						return true
+					}
+					if k, ok := constInt(bo.X); ok && k == '\\' {
+						return true
+					}
+				}
+			}
+			if bo, ok := dc.cond.(*ssa.BinOp); ok && dc.onTrue && bo.Op == token.EQL {
+				if k, ok := constInt(bo.Y); ok && k == '\\' {
+					return true
+				}
+			}
+		}
+		return false
+	}
+	for _, fn := range append([]*ssa.Function{split}, split.AnonFuncs...) {
+		instrsOf(fn, func(in ssa.Instruction) {
+			switch x := in.(type) {
+			case *ssa.Phi:
+				if !isBoolType(x.Type()) {
+					return
+				}
+				for i, e := range x.Edges {
+					if b, isC := constBool(e); isC && b {
+						pred := x.Block().Preds[i]
+						conds := append(dominatingConds(pred), lastCond(pred, x.Block())...)
+						if isBackslashTrue(conds) {
+							st.escPhis[x] = true
+							st.escSites = append(st.escSites, escSite{block: pred, conds: conds, pos: x.Pos(), phi: x})
+						}
+					}
+				}
+			case *ssa.Store:
+				b, isC := constBool(x.Val)
+				if !isC || !b {
+					return
+				}
+				fa, ok := x.Addr.(*ssa.FieldAddr)
+				if !ok {
+					return
+				}
+				if _, isAlloc := fa.X.(*ssa.Alloc); !isAlloc {
+					if _, isFV := fa.X.(*ssa.FreeVar); !isFV {
+						return
+					}
+				}
+				conds := dominatingConds(x.Block())
+				if isBackslashTrue(conds) {
+					key := [2]interface{}{fa.X, fa.Field}
+					st.escFields[key] = true
+					st.escSites = append(st.escSites, escSite{block: x.Block(), conds: conds, pos: x.Pos(), field: key})
+				}
+			}
+		})
+	}
+	return st
+}
+
+// isEscRead: v reads the escape flag (through loop-carried phis, or as a load of the state member).
+func (st *splitterVars) isEscRead(v ssa.Value) bool {
+	if u, ok := v.(*ssa.UnOp); ok && u.Op == token.MUL {
+		if fa, ok := u.X.(*ssa.FieldAddr); ok && st.escFields[[2]interface{}{fa.X, fa.Field}] {
+			return true
+		}
+	}
+	seen := map[ssa.Value]bool{}
+	var rec func(v ssa.Value) bool
+	rec = func(v ssa.Value) bool {
+		if seen[v] {
+			return false
+		}
+		seen[v] = true
+		phi, ok := v.(*ssa.Phi)
+		if !ok {
+			return false
+		}
+		if st.escPhis[phi] {
+			return true
+		}
+		for _, e := range phi.Edges {
+			if rec(e) {
+				return true
+			}
+		}
+		return false
+	}
+	return rec(v)
+}
+
+// isOtherFlagRead: v reads a boolean state flag that is not the escape flag (the in-quotes state).
+func (st *splitterVars) isOtherFlagRead(v ssa.Value) bool {
+	if u, ok := v.(*ssa.UnOp); ok && u.Op == token.MUL && isBoolType(u.Type()) {
+		if fa, ok := u.X.(*ssa.FieldAddr); ok && !st.escFields[[2]interface{}{fa.X, fa.Field}] {
+			return true
+		}
+	}
+	if phi, ok := v.(*ssa.Phi); ok && isBoolType(phi.Type()) && !st.isEscRead(phi) {
+		return true
+	}
+	return false
 }
